@@ -69,15 +69,8 @@ type ChanObj struct {
 	Cap    int
 	Buf    []Value
 	Closed bool
-	// rendezvous bookkeeping for unbuffered channels
-	RecvWaiting int
-	SendQ       []*sendReq
-}
-
-type sendReq struct {
-	val   Value
-	taken bool
-	th    *Thread
+	recvq  []*waiter // blocked receivers (incl. select cases), FIFO
+	sendq  []*waiter // blocked senders (incl. select cases), FIFO
 }
 
 type ChanV struct{ C *ChanObj }
